@@ -591,7 +591,138 @@ func calleeFn(cc *ssa.CallCommon) *ssa.Function {
 			return f
 		}
 	}
+	// a local func variable holding exactly one closure (var visit func(..);
+	// visit = func(..){ .. visit(..) .. }), called directly or recursively
+	if u, ok := cc.Value.(*ssa.UnOp); ok && u.Op == token.MUL {
+		if al := funcVarAlloc(u.X); al != nil {
+			if mc, callOnly := localFuncVar(al); mc != nil && callOnly {
+				if f, ok := mc.Fn.(*ssa.Function); ok {
+					return f
+				}
+			}
+		}
+	}
 	return nil
+}
+
+// funcVarAlloc resolves the address of a local func variable: the Alloc
+// itself, or the Alloc bound to a free variable of the enclosing closure.
+func funcVarAlloc(addr ssa.Value) *ssa.Alloc {
+	switch x := addr.(type) {
+	case *ssa.Alloc:
+		return x
+	case *ssa.FreeVar:
+		fn := x.Parent()
+		par := fn.Parent()
+		if par == nil {
+			return nil
+		}
+		idx := -1
+		for i, fv := range fn.FreeVars {
+			if fv == x {
+				idx = i
+			}
+		}
+		if idx < 0 {
+			return nil
+		}
+		for _, b := range par.Blocks {
+			for _, ins := range b.Instrs {
+				if mc, ok := ins.(*ssa.MakeClosure); ok && mc.Fn == ssa.Value(fn) && idx < len(mc.Bindings) {
+					return funcVarAlloc(mc.Bindings[idx])
+				}
+			}
+		}
+	}
+	return nil
+}
+
+// localFuncVar: the alloc is a func-typed local that is assigned exactly one
+// closure; callOnly reports that it is only ever called (loaded as the callee
+// of a call) or captured by that same closure - it never escapes, so the
+// closure runs only where it is called.
+func localFuncVar(al *ssa.Alloc) (*ssa.MakeClosure, bool) {
+	if al.Referrers() == nil {
+		return nil, false
+	}
+	if _, ok := al.Type().(*types.Pointer).Elem().Underlying().(*types.Signature); !ok {
+		return nil, false
+	}
+	var mc *ssa.MakeClosure
+	callOnly := true
+	var pending []*ssa.FreeVar
+	for _, r := range *al.Referrers() {
+		switch x := r.(type) {
+		case *ssa.Store:
+			if x.Addr != ssa.Value(al) {
+				callOnly = false
+				continue
+			}
+			if k, ok := x.Val.(*ssa.Const); ok && k.Value == nil {
+				continue
+			}
+			m, ok := x.Val.(*ssa.MakeClosure)
+			if !ok || (mc != nil && mc != m) {
+				return nil, false
+			}
+			mc = m
+		case *ssa.UnOp:
+			if x.Referrers() != nil {
+				for _, rr := range *x.Referrers() {
+					ci, ok := rr.(ssa.CallInstruction)
+					if !ok || ci.Common().Value != ssa.Value(x) {
+						callOnly = false
+					}
+					if _, isGo := rr.(*ssa.Go); isGo {
+						callOnly = false
+					}
+				}
+			}
+		case *ssa.MakeClosure:
+			// captured: fine only if captured by the closure stored in it
+			if clo, ok := x.Fn.(*ssa.Function); ok {
+				for i, bnd := range x.Bindings {
+					if bnd == ssa.Value(al) && i < len(clo.FreeVars) {
+						pending = append(pending, clo.FreeVars[i])
+					}
+				}
+			}
+		case *ssa.DebugRef:
+		default:
+			callOnly = false
+		}
+	}
+	if mc == nil {
+		return nil, false
+	}
+	for _, fv := range pending {
+		if fv.Parent() != mc.Fn.(*ssa.Function) {
+			callOnly = false
+			continue
+		}
+		if fv.Referrers() == nil {
+			continue
+		}
+		for _, r := range *fv.Referrers() {
+			u, ok := r.(*ssa.UnOp)
+			if !ok {
+				callOnly = false
+				continue
+			}
+			if u.Referrers() != nil {
+				for _, rr := range *u.Referrers() {
+					ci, ok := rr.(ssa.CallInstruction)
+					if !ok || ci.Common().Value != ssa.Value(u) {
+						callOnly = false
+					}
+					if _, isGo := rr.(*ssa.Go); isGo {
+						callOnly = false
+					}
+				}
+			}
+		}
+	}
+	return mc, callOnly
 }
 
 func (la *LockAnalysis) applyDeferred(s *lsSummary, d *ssa.Defer, ex lockset, addAcq func(string, byte), rec bool) {
@@ -780,8 +911,15 @@ func (la *LockAnalysis) closureUse(s *lsSummary, mc *ssa.MakeClosure, cur lockse
 		return
 	}
 	for _, r := range *refs {
-		switch r.(type) {
+		switch x := r.(type) {
 		case *ssa.Call, *ssa.Go, *ssa.Defer:
+		case *ssa.Store:
+			if al, ok := x.Addr.(*ssa.Alloc); ok {
+				if m2, callOnly := localFuncVar(al); m2 == mc && callOnly {
+					continue // analysed at its call sites
+				}
+			}
+			la.ctxFor(clo, map[int]bool{}, lockset{}, s, mc.Pos())
 		default:
 			la.ctxFor(clo, map[int]bool{}, lockset{}, s, mc.Pos())
 		}
